@@ -11,7 +11,7 @@ CONSTANTS
   MaxResults = 5
   KindSet = {"ok", "ne", "nr", "pe", "pp", "em"}
   BuCap = 3
-  FixF22 = FALSE
+  FixF34 = FALSE
   GenHist = TRUE
 INIT Init
 NEXT GenNext
